@@ -203,6 +203,10 @@ def process_includes(lualines, filename=None):
         else:
             with open(inc_full_path, 'rb') as fh:
                 for line in fh:
+                    if not line.endswith(b'\n'):
+                        # (The file's last line must not merge with the
+                        # cart line that follows the #include.)
+                        line += b'\n'
                     yield line
 
 
